@@ -78,6 +78,7 @@ struct Cli
     bool verbose = false;
     bool terminal = true;
     int faults = 0;  // 0 none, 1 = one injected failure per operation, 2 = follow-ups with a second failure
+    std::set<std::string> prune_tags;  // context tags of known findings: transitions carrying one are not expanded
 };
 
 static std::vector<std::string> split(const std::string& s, char c)
@@ -149,6 +150,7 @@ struct Rec
     std::vector<env::Viol> viols;     // relevant ones
     unsigned foreign = 0;             // violations of other properties (state pruned, not reported here)
     std::string crash;
+    std::string tag;
     unsigned checks = 0;
 };
 
@@ -306,7 +308,7 @@ static bool run_transition(const Cli& cli, const History& hist, const Op& o, int
     oh.str(ctx.obs);
     std::string line = "T\t" + op_str(o) + "\t" + verdict + "\t" + canon + "\t" + oh.hex() + "\t" +
                        std::to_string((ctx.fill_phase || ctx.free_step) ? 1 : 0) + "\t" + std::to_string(foreign) + "\t" +
-                       std::to_string(fail_at) + "\t" + std::to_string(allocs_out) + "\n";
+                       std::to_string(fail_at) + "\t" + std::to_string(allocs_out) + "\t" + (ctx.op_tag.empty() ? "-" : ctx.op_tag) + "\n";
     line += viol_lines(rel);
     line += "E\n";
     write_all(fd, line);
@@ -448,6 +450,10 @@ int main(int argc, char** argv)
         else if (a == "--no-terminal") cli.terminal = false;
         else if (a == "--faults") cli.faults = std::atoi(next().c_str());
         else if (a == "--verbose") cli.verbose = true;
+        else if (a == "--prune-tags")
+        {
+            for (auto& t : split(next(), ',')) cli.prune_tags.insert(t);
+        }
         else if (a == "--fixed")
         {
             cli.prm.fixed_choices.clear();
@@ -474,7 +480,7 @@ int main(int argc, char** argv)
     std::map<std::string, Found> found;  // by props|monitor|opname|discr
     std::map<std::string, long> monitor_counts;
     std::vector<long> frontier{0};
-    long transitions = 0, states = 0, foreign_pruned = 0, crashes = 0, terminal_checks = 0, fault_runs = 0;
+    long transitions = 0, states = 0, foreign_pruned = 0, crashes = 0, terminal_checks = 0, fault_runs = 0, known_pruned = 0;
     int depth_completed = -1;
     bool exhausted_deadline = false, fixpoint = false, internal_error = false;
     std::string internal_msg;
@@ -658,6 +664,7 @@ int main(int argc, char** argv)
                     open_rec->xd = std::atoi(f[5].c_str());
                     open_rec->foreign = static_cast<unsigned>(std::atoi(f[6].c_str()));
                     if (f.size() > 7 && f[7] != "0") open_rec->verdict = open_rec->verdict == "OK" ? "FAULT-OK" : "FAULT-" + open_rec->verdict;
+                    if (f.size() > 9 && f[9] != "-") open_rec->tag = f[9];
                 }
                 else if (f[0] == "N")
                 {
@@ -779,6 +786,14 @@ int main(int argc, char** argv)
                 continue;
             }
             if (r.verdict == "OK") ++terminal_checks;
+            if (!r.tag.empty() && cli.prune_tags.count(r.tag) && r.verdict != "VIOL" && r.verdict != "CRASH")
+            {
+                // the operation ran into a recorded known finding (identified by its context tag): whatever this
+                // check's own monitors said about the transition has been noted above; the state is polluted by a
+                // defect that is already on record and is not explored further
+                ++known_pruned;
+                continue;
+            }
             if (r.verdict == "FOREIGN-CRASH")
             {
                 // the operation did not complete, but the crash belongs to another property: nothing to expand
@@ -831,7 +846,7 @@ int main(int argc, char** argv)
        << ", \"depth_bound\": " << cli.prm.depth << ",\n";
     js << " \"states\": " << states << ", \"transitions\": " << transitions << ", \"terminal_checks\": " << terminal_checks
        << ", \"fault_runs\": " << fault_runs << ", \"foreign_seen\": " << foreign_pruned << ", \"crashes\": " << crashes
-       << ",\n";
+       << ", \"known_pruned\": " << known_pruned << ",\n";
     js << " \"distinct_observations\": " << obs_seen.size() << ", \"depth_completed\": " << depth_completed
        << ", \"fixpoint\": " << (fixpoint ? "true" : "false") << ", \"deadline_hit\": " << (exhausted_deadline ? "true" : "false")
        << ",\n";
